@@ -979,7 +979,7 @@ Proof.
     rewrite semit_eq in E. eapply semit_balanced; exact E.
   - destruct (signalable (sh c)); [|discriminate H]. injection H as <-.
     cbn [py d2p]. destruct W as [W|W]; [left; exact W|]. right.
-    rewrite map_app, map_fst_untag. apply wbk_app; [exact W|]. rewrite tok_id. destruct term; reflexivity.
+    rewrite map_app. apply wbk_app; [exact W|]. unfold untag. cbn [map fst]. rewrite tok_id. destruct term; reflexivity.
 Qed.
 
 Lemma Wb_reach c : reach c -> Wb c.
@@ -988,3 +988,96 @@ Proof.
   - intros s [b ->]. right. reflexivity.
   - intros s l s' HI Hs. eapply Wb_step; eassumption.
 Qed.
+
+(* ------------------------------------------------------------------ the property theorems *)
+Theorem no_deadlock_proof : forall c, reach c -> ~ deadlocked c.
+Proof.
+  intros c Hr (Hp & Hs & He).
+  assert (Hq : p2d c = [] /\ d2p c = []).
+  { unfold chans_empty in He. destruct (p2d c); [destruct (d2p c); [auto | discriminate He] | discriminate He]. }
+  destruct Hq as [Hq Hd].
+  assert (Pe : pipe c = []) by (unfold pipe; rewrite Hq, Hd; reflexivity).
+  assert (De : drained c = sh c) by (unfold drained; rewrite Hq; reflexivity).
+  unfold sh_waits in Hs. unfold py_waits in Hp.
+  destruct (Inv_reach c Hr) as [[D|[D|D]]|(U & R & u & P & F & T & O)].
+  - rewrite Pe in D. discriminate D.
+  - destruct (Wb_reach c Hr) as [W|W].
+    + destruct (py c) as [| | |p| | | | |]; try discriminate Hp; discriminate W.
+    + destruct (py c) as [| | |p| | | | |]; try discriminate Hp; try discriminate D.
+      rewrite Hd in W. discriminate W.
+  - rewrite De in D. rewrite D in Hs. discriminate Hs.
+  - rewrite Pe in P. symmetry in P. apply app_eq_nil in P as [-> ->].
+    unfold pend in F. rewrite De in O.
+    destruct (py c) as [| | |p|[i w] kok kbad|rem ok kok kbad|k|h kt|]; try discriminate Hp; cbn [okst] in O.
+    + destruct O as (_ & x & Hx & _). discriminate Hx.
+    + destruct O as (Ho & Hn & _). rewrite Ho in F. cbn [app] in F. inversion F. subst. contradiction.
+    + destruct O as (_ & O). discriminate O.
+    + destruct O as (_ & _ & O). cbn [map okh] in O. destruct (sh c); try discriminate O; discriminate Hs.
+    + exact O.
+Qed.
+
+Theorem replies_matched_proof : forall c, reach c -> disturbed c \/ matched c.
+Proof.
+  intros c Hr. destruct (Inv_reach c Hr) as [D|(U & R & u & P & F & T & O)]; [left; exact D|].
+  right. exists R, u. auto.
+Qed.
+
+(* in an undisturbed session a synchronous expect consumes the answer to its own command *)
+Theorem expect_reads_own_reply_proof :
+  forall c i w kok kbad r g rest,
+    reach c -> ~ disturbed c -> py c = PRead1 (i, w) kok kbad -> d2p c = (r, g) :: rest ->
+    answers (i, w) (r, g).
+Proof.
+  intros c i w kok kbad r g rest Hr Hn Hp Hd.
+  destruct (Inv_reach c Hr) as [D|(U & R & u & P & F & T & O)]; [contradiction|].
+  rewrite Hp in O. cbn [okst] in O. destruct O as (Ho & x & -> & _).
+  unfold pend in F. rewrite Hp, Ho in F. cbn [app] in F. inversion F as [|? ? ? ? An _]. subst.
+  unfold pipe in P. rewrite Hd in P. cbn [app] in P. injection P as <- _. exact An.
+Qed.
+
+(* a die / SIGINT / SIGTERM notice ends the session at the read that meets it, whatever was expected *)
+Theorem notice_ends_session_proof :
+  forall c r ch c', isnotice r = true -> stepf c (LR r ch) = Some c' -> py_over (py c') = true.
+Proof.
+  intros c r ch c' N H. cbn [stepf] in H.
+  destruct (d2p c) as [|[r' g] rest]; [discriminate H|]. destruct (rep_eqb r r'); [|discriminate H].
+  destruct (py c) eqn:Ep; try (eapply py_read_notice; [exact H | exact N]).
+  injection H as <-. reflexivity.
+Qed.
+
+(* ------------------------------------------------------------------ non-vacuity *)
+(* a deadlocked configuration exists (it is just not reachable) *)
+Example deadlocked_is_satisfiable : deadlocked (mk (PHand HMeta (Done true)) [] SMain [] [] 3).
+Proof. repeat split. Qed.
+
+(* a reachable configuration with three outstanding expects, all matched, after a metadata request
+   with an inherit round trip *)
+Definition ex_labels : list label :=
+  [LW CEbdQ true; LTau; LShRead; LR (RAck CEbdQ) 0; LW CNoSandbox true; LTau; LShRead; LR RLine 0;
+   LEnd (ERet true);
+   LCall (OKeys true 3); LW CSetMeta true; LTau; LShRead; LR (RAck CSetMeta) 0; LW CGenMeta true; LTau;
+   LShRead; LShEmit EInherit; LR RReqInherit 1; LW CPath true; LW COther true; LTau; LShRead; LShRead;
+   LShEmit EKey; LR RKey 0; LShEmit (EFinish true); LR RPhasesOk 0;
+   LW CPreload true; LTau; LW CPreload false; LTau; LW CPreload true; LTau; LEnd (ERet true);
+   LShRead].
+Example ex_reachable :
+  match run conf label stepf (conf0 false) ex_labels with
+  | Some c => List.length (pend c) = 3 /\ py c = PIdle /\ List.length (d2p c) = 1 /\ List.length (p2d c) = 2
+  | None => False
+  end.
+Proof. vm_compute. auto. Qed.
+
+(* an unknown command: the daemon dies, python's next request ends with an error *)
+Example ex_unknown_command :
+  accepts_obs false
+    [OW CEbdQ; OR (RAck CEbdQ); OW CNoSandbox; OR RLine; OE (ERet true);
+     OC ORaw; OW COther; OE (ERet true);
+     OC OAlive; OW CAlive; OR RDying; OR RDead; OE EExc] = true.
+Proof. vm_compute. reflexivity. Qed.
+(* ... and a trace in which the reply to that request arrives although the daemon must be dead is no behaviour *)
+Example ex_unknown_command_not_misread :
+  accepts_obs false
+    [OW CEbdQ; OR (RAck CEbdQ); OW CNoSandbox; OR RLine; OE (ERet true);
+     OC ORaw; OW COther; OE (ERet true);
+     OC OAlive; OW CAlive; OR (RAck CAlive); OE (ERet true)] = false.
+Proof. vm_compute. reflexivity. Qed.
